@@ -232,6 +232,264 @@ fn run_eac_tasks(o: &mut Out, adlt: &str, tmp: &str, tasks: &[EacTask]) {
     }
 }
 
+// ---------------------------------------------------------------------------------------------- real payloads
+/// verbose argument encodings (little endian): type info + data
+fn arg(type_info: u32, data: &[u8]) -> Vec<u8> {
+    [&type_info.to_le_bytes()[..], data].concat()
+}
+fn arg_str(s: &str, utf8: bool) -> Vec<u8> {
+    let mut d = ((s.len() + 1) as u16).to_le_bytes().to_vec();
+    d.extend_from_slice(s.as_bytes());
+    d.push(0);
+    arg(0x200 | if utf8 { 0x8000 } else { 0 }, &d)
+}
+fn arg_raw(b: &[u8]) -> Vec<u8> {
+    let mut d = (b.len() as u16).to_le_bytes().to_vec();
+    d.extend_from_slice(b);
+    arg(0x400, &d)
+}
+struct RealMsg {
+    name: &'static str,
+    verbose: bool,
+    ext: bool,
+    noar: u8,
+    payload: Vec<u8>,
+}
+fn real_catalogue() -> Vec<RealMsg> {
+    const BOOL: u32 = 0x10;
+    const SINT: u32 = 0x20;
+    const UINT: u32 = 0x40;
+    const FLOA: u32 = 0x80;
+    const HEX: u32 = 0x10000;
+    let v = |name: &'static str, args: Vec<Vec<u8>>| RealMsg { name, verbose: true, ext: true, noar: args.len() as u8, payload: args.concat() };
+    let nv = |name: &'static str, ext: bool, id: u32, data: &[u8]| RealMsg { name, verbose: false, ext, noar: 0, payload: [&id.to_le_bytes()[..], data].concat() };
+    vec![
+        v("u32", vec![arg(UINT | 3, &4_000_000_000u32.to_le_bytes())]),
+        v("u8", vec![arg(UINT | 1, &[7])]),
+        v("u16", vec![arg(UINT | 2, &65535u16.to_le_bytes())]),
+        v("u64", vec![arg(UINT | 4, &u64::MAX.to_le_bytes())]),
+        v("i8", vec![arg(SINT | 1, &(-128i8).to_le_bytes())]),
+        v("i16", vec![arg(SINT | 2, &(-32768i16).to_le_bytes())]),
+        v("i32", vec![arg(SINT | 3, &i32::MIN.to_le_bytes())]),
+        v("i64", vec![arg(SINT | 4, &i64::MIN.to_le_bytes())]),
+        v("f32", vec![arg(FLOA | 3, &3.14159f32.to_le_bytes())]),
+        v("f64", vec![arg(FLOA | 4, &0.123456789012345f64.to_le_bytes())]),
+        v("f64b", vec![arg(FLOA | 4, &(-1234567.5f64).to_le_bytes())]),
+        v("bool_t", vec![arg(BOOL | 1, &[1])]),
+        v("bool_f", vec![arg(BOOL | 1, &[0])]),
+        v("raw4", vec![arg_raw(&[0xde, 0xad, 0xbe, 0xef])]),
+        v("raw9", vec![arg_raw(&[0, 1, 2, 0x7f, 0x80, 0xfe, 0xff, 0x41, 0x61])]),
+        v("hex32", vec![arg(UINT | 3 | HEX, &0xdeadbeefu32.to_le_bytes())]),
+        v("hex8", vec![arg(UINT | 1 | HEX, &[0x0a])]),
+        v("str", vec![arg_str("foo bar", false)]),
+        v("str_utf8", vec![arg_str("Error in Foo", true)]),
+        v("str_u32", vec![arg_str("count", false), arg(UINT | 3, &123456789u32.to_le_bytes())]),
+        v("u8_raw_str", vec![arg(UINT | 1, &[255]), arg_raw(&[0xca, 0xfe, 0xba, 0xbe, 0x00]), arg_str("Done", false)]),
+        v("bool_i16", vec![arg(BOOL | 1, &[1]), arg(SINT | 2, &(-1234i16).to_le_bytes())]),
+        v("u64_f64_u64", vec![arg(UINT | 4, &9_999_999_999u64.to_le_bytes()), arg(FLOA | 4, &2.5f64.to_le_bytes()), arg(UINT | 4, &1u64.to_le_bytes())]),
+        v("five_u32", (0..5u32).map(|i| arg(UINT | 3, &(1_000_000_007u32.wrapping_mul(i + 1)).to_le_bytes())).collect()),
+        v("noargs", vec![]),
+        nv("nv_ascii", true, 1, b"abcd"),
+        nv("nv_bin", true, 4711, &[0, 1, 2, 0xff]),
+        nv("nv_idonly", true, 0x01020304, &[]),
+        nv("nv_long", true, 77, b"state changed to ON"),
+        nv("nv_noext", false, 1, b"abcd"),
+        nv("nv_noext_bin", false, 65536, &[0xaa, 0xbb, 0xcc]),
+    ]
+}
+
+/// Filters whose search texts are cut out of the text the code base itself renders for messages with real payloads
+/// (all verbose argument kinds, non-verbose messages): the abstract message carries that rendered text, TLC evaluates the
+/// substring / regex relation on it. Both states of the message text are used (rendered on demand / already present).
+fn run_real_payload(o: &mut Out, rng: &mut Rng, max_needles: usize) {
+    let cat = real_catalogue();
+    // the unfiltered messages and their text as rendered by the code base
+    let mut msgs: Vec<(AMsg, &RealMsg, String)> = Vec::new();
+    for (i, r) in cat.iter().enumerate() {
+        let am = AMsg { ecu: vec![1, 2, 0, 0], ext: r.ext, apid: if r.ext { vec![1, 2, 0, 0] } else { vec![0; 4] }, ctid: if r.ext { vec![2, 1, 0, 0] } else { vec![0; 4] },
+                        vmm: if !r.ext { 0 } else if r.verbose { 0x41 } else { 0x40 }, text: vec![], lc: 1 };
+        let probe = mk_real_msg(i as u32, &am, &r.payload, r.noar, None);
+        let text = catch(std::panic::AssertUnwindSafe(|| probe.payload_as_text().map(|t| t.to_string())));
+        match text {
+            Ok(Ok(t)) => match text_codes(&t) {
+                Some(codes) => msgs.push((AMsg { text: codes, ..am }, r, t)),
+                None => o.bump("real_msgs_skipped_text_not_printable_ascii", 1),
+            },
+            _ => o.bump("real_msgs_skipped_text_not_rendered", 1),
+        }
+    }
+    o.bump("real_msgs", msgs.len() as u64);
+    o.bump("real_msgs_text_longer_than_raw", msgs.iter().filter(|m| m.2.len() > m.1.payload.len()).count() as u64);
+    let fes_rot = ["dlf", "dlfa", "api", "stream"];
+    let mut rot = 0usize;
+    for (mi, (_am, r, t)) in msgs.iter().enumerate() {
+        let chars: Vec<char> = t.chars().collect();
+        let n = chars.len();
+        let raw = r.payload.len();
+        // search texts: prefixes, suffixes and infixes of the rendered text with lengths around the raw payload length,
+        // the whole text, the whole text + 1 character, the text with the case of a letter changed, a foreign text
+        let mut needles: Vec<String> = Vec::new();
+        let mut must: Vec<String> = Vec::new();
+        let mut add = |v: &mut Vec<String>, s: String| {
+            if !s.is_empty() && !v.contains(&s) {
+                v.push(s);
+            }
+        };
+        for l in [raw, raw + 1, n] {
+            if l >= 1 && l <= n {
+                add(&mut must, chars[..l].iter().collect());
+                add(&mut must, chars[n - l..].iter().collect());
+            }
+        }
+        for l in [1usize, 2, raw.saturating_sub(1), raw, raw + 1, raw + 2, n.saturating_sub(1)] {
+            if l >= 1 && l <= n {
+                add(&mut needles, chars[..l].iter().collect());
+                add(&mut needles, chars[n - l..].iter().collect());
+                if n > l + 1 {
+                    add(&mut needles, chars[1..1 + l].iter().collect());
+                }
+            }
+        }
+        add(&mut needles, format!("{}x", t));
+        if let Some(p) = chars.iter().position(|c| c.is_ascii_alphabetic()) {
+            let mut c2 = chars.clone();
+            c2[p] = if c2[p].is_ascii_lowercase() { c2[p].to_ascii_uppercase() } else { c2[p].to_ascii_lowercase() };
+            add(&mut needles, c2.iter().collect());
+        }
+        add(&mut needles, "zzz".to_string());
+        needles.retain(|x| !must.contains(x));
+        while must.len() + needles.len() > max_needles && !needles.is_empty() {
+            let k = rng.below(needles.len() as u64) as usize;
+            needles.swap_remove(k);
+        }
+        must.extend(needles);
+        for needle in must {
+            let w = match text_codes(&needle) {
+                Some(w) => w,
+                None => continue,
+            };
+            let safe = w.iter().all(|t| *t <= 26 || (101..=126).contains(t) || (248..=257).contains(t));
+            let edge_blank = needle.starts_with(' ') || needle.ends_with(' ');
+            let mut crits = vec![PayCrit { k: "sub".into(), cls: "".into(), w: w.clone(), w2: vec![], ic: false },
+                                 PayCrit { k: "sub".into(), cls: "".into(), w: w.clone(), w2: vec![], ic: true }];
+            if safe {
+                let cls = *rng.pick(&["contains", "prefix", "suffix"]);
+                crits.push(PayCrit { k: "re".into(), cls: cls.into(), w: w.clone(), w2: vec![], ic: rng.chance(1, 2) });
+            }
+            for pc in crits {
+                let plain = pc.k == "sub" && !pc.ic;
+                let mut plan: Vec<(&str, bool)> = vec![("json", false), ("json", true)];
+                if plain {
+                    plan.extend([("dlf", false), ("dlfa", false), ("api", false), ("stream", false)]);
+                } else {
+                    rot += 1;
+                    let fe = fes_rot[rot % 4];
+                    if fe != "api" {
+                        plan.push((fe, false));
+                    }
+                }
+                for (fe, not) in plan {
+                    if fe.starts_with("dlf") && edge_blank {
+                        continue; // blanks at the edge of an XML text are left out (narrower reading)
+                    }
+                    let mut f = empty_filter(0);
+                    f.not = not;
+                    f.pay = pc.clone();
+                    // the source message and two others, each with the text rendered on demand and already present
+                    let others = [mi, (mi + 1 + rot) % msgs.len(), (mi + 7 + 2 * rot) % msgs.len()];
+                    run_real_case(o, fe, &f, &others.iter().map(|k| &msgs[*k]).collect::<Vec<_>>());
+                }
+            }
+        }
+    }
+}
+
+fn run_real_case(o: &mut Out, fe: &str, f: &AFilter, ms: &[&(AMsg, &RealMsg, String)]) {
+    let case = o.case;
+    o.case += 1;
+    let lib_fe = if fe == "stream" { "json" } else { fe };
+    o.bump(&format!("real_cases_{}", fe), 1);
+    let (built, text) = catch(std::panic::AssertUnwindSafe(|| build(lib_fe, f))).unwrap_or_else(|p| (Err(format!("panic: {}", p)), String::new()));
+    let hdr = json!({"fe": lib_fe, "f": f, "src": "real-payload", "via": if fe == "stream" { "filter_as_streams" } else { "matches" }, "text": text, "needle": text_str(&f.pay.w),
+                     "msgs": ms.iter().map(|x| json!({"payload": x.1.name, "rendered": x.2})).collect::<Vec<_>>()});
+    o.t.ev(json!({"ev":"reset","case":case,"hdr":hdr}));
+    o.cases_written += 1;
+    let filter = match built {
+        Ok(x) => x,
+        Err(e) => {
+            o.t.ev(json!({"ev":"loaderr","msg":e}));
+            o.bump("loaderr", 1);
+            return;
+        }
+    };
+    // the concrete messages: (abstract message, real message) in both text states
+    let mut conc: Vec<(&AMsg, usize, bool, adlt::dlt::DltMessage)> = Vec::new();
+    for (am, r, t) in ms.iter().map(|x| (&x.0, x.1, &x.2)) {
+        for cached in [false, true] {
+            let idx = conc.len() as u32;
+            conc.push((am, r.payload.len(), cached, mk_real_msg(idx, am, &r.payload, r.noar, if cached { Some(t.clone()) } else { None })));
+        }
+    }
+    if fe == "stream" {
+        // one enabled positive filter: the stream filter forwards a message iff the filter matches it
+        let input: Vec<adlt::dlt::DltMessage> = conc.iter().map(|c| c.3.clone()).collect();
+        let res = catch(std::panic::AssertUnwindSafe(|| {
+            let (tx, rx) = std::sync::mpsc::channel();
+            let (tx2, rx2) = std::sync::mpsc::channel();
+            for m in input {
+                tx.send(m).unwrap();
+            }
+            drop(tx);
+            let r = adlt::filter::functions::filter_as_streams(std::slice::from_ref(&filter), &rx, &|m| tx2.send(m));
+            drop(tx2);
+            (r.is_ok(), rx2.iter().map(|m| m.index).collect::<HashSet<u32>>())
+        }));
+        match res {
+            Ok((true, fwd)) => {
+                for (i, (am, raw, cached, _)) in conc.iter().enumerate() {
+                    o.t.ev(json!({"ev":"decide","m":am,"result":fwd.contains(&(i as u32)),"pred":-1,"raw_len":raw,"cached":cached,"mi":i / 2}));
+                }
+            }
+            Ok((false, _)) => o.t.ev(json!({"ev":"loaderr","msg":"filter_as_streams returned an error"})),
+            Err(p) => o.t.ev(json!({"ev":"panic","msg":p})),
+        }
+        o.bump("events_observed", conc.len() as u64);
+        o.bump("slow_path", conc.len() as u64);
+    } else {
+        for (i, (am, raw, cached, msg)) in conc.iter().enumerate() {
+            match catch(std::panic::AssertUnwindSafe(|| filter.matches(msg))) {
+                Ok(r) => o.t.ev(json!({"ev":"decide","m":am,"result":r,"pred":-1,"raw_len":raw,"cached":cached,"mi":i / 2})),
+                Err(p) => o.t.ev(json!({"ev":"panic","msg":p})),
+            }
+        }
+        o.bump("events_observed", conc.len() as u64);
+        o.bump("slow_path", conc.len() as u64);
+        if lib_fe == "json" {
+            // the filter serialised to JSON and loaded again, on the source message
+            match catch(std::panic::AssertUnwindSafe(|| Filter::from_json(&filter.to_json()).map_err(|e| format!("{:?}", e)))) {
+                Ok(Ok(again)) => {
+                    for (am, raw, cached, msg) in conc.iter().take(2) {
+                        if let Ok((b, a)) = catch(std::panic::AssertUnwindSafe(|| (filter.matches(msg), again.matches(msg)))) {
+                            o.t.ev(json!({"ev":"roundtrip","m":am,"before":b,"after":a,"pred":-1,"raw_len":raw,"cached":cached}));
+                            o.bump("events_observed", 1);
+                            o.bump("slow_path", 1);
+                        }
+                    }
+                }
+                Ok(Err(e)) => {
+                    o.t.ev(json!({"ev":"loaderr","msg":e}));
+                    return;
+                }
+                Err(p) => {
+                    o.t.ev(json!({"ev":"panic","msg":p}));
+                    return;
+                }
+            }
+        }
+    }
+    o.t.ev(json!({"ev":"end"}));
+}
+
 fn main() {
     quiet_panics();
     let a = Args::from_env();
@@ -362,6 +620,10 @@ fn main() {
     }
     if let Some(adlt) = &adlt {
         run_eac_tasks(&mut o, adlt, &tmp, &eac_tasks);
+    }
+    let real_needles = a.num("--real-payload", 0) as usize;
+    if real_needles > 0 {
+        run_real_payload(&mut o, &mut rng, real_needles);
     }
     o.t.flush();
     println!("{}", json!({"cases": o.case, "cases_written": o.cases_written, "lines": o.t.lines, "stats": o.stats}));
